@@ -79,3 +79,12 @@ class SourceHandlerMixin:
                             lateral_column_aliases[tgt_col_from_query.raw_name] = (
                                 src_cols_resolved
                             )
+                if (
+                    i == 0
+                    and len(self.union_barriers) > 1
+                    and len(holder.write_columns) < len(col_grp)
+                    and not any(col.raw_name == "*" for col in col_grp)
+                ):
+                    # first branch of a set operation names the target columns, position by position, including
+                    # the columns without a source, e.g. SELECT 1 AS a, x AS b FROM t1 UNION ALL SELECT y, z FROM t2
+                    holder.add_write_column(*col_grp)
